@@ -3,7 +3,7 @@
   whose statements are `lookupflag` and rule statements of the map-keyed lookup types.
 -/
 import FontcProofs.FeaSimTop
-import FontcProofs.FeaLookupSem
+import FontcProofs.FeaRunSem
 import FontcProofs.FeaAssemble
 
 namespace Fontc.FeaCompile
